@@ -20,7 +20,7 @@ def ptok(p):
 
 def expected_udiff(old, new):
     def txt(x):
-        return x.decode('ascii') if isinstance(x, bytes) else x
+        return x.decode('utf-8') if isinstance(x, bytes) else x          # as it stands (a byte order mark is a character of the text)
     return '\n'.join(difflib.unified_diff(txt(old).splitlines(), txt(new).splitlines(), lineterm=''))
 
 
